@@ -37,7 +37,14 @@ def wf : Bool → List Op → Bool
   | h, .wrapEnd :: r => !h && r.isEmpty
   | h, op :: r => (!op.needsTok || h) && wf h r
 
-def Task.wf (x : Task) : Bool := Sched.wf (holdsTok x.ops) x.ops
+/-- operations that stand for a suspended `await` (they only occur at the head of a continuation) -/
+def Op.isWait : Op → Bool
+  | .startWait | .reacqWait | .lockWait _ _ _ | .runWait _ _ => true
+  | _ => false
+
+def noWait (ops : List Op) : Bool := ops.all fun o => !o.isWait
+
+def Task.wf (x : Task) : Bool := Sched.wf (holdsTok x.ops) x.ops && noWait x.ops.tail
 
 def Op.isTokWait : Op → Bool
   | .startWait | .reacqWait => true
